@@ -279,8 +279,9 @@ func (r ValueRange) Includes(v Value) Value {
 	if v.IsNull() {
 		return True
 	}
-	if len(v.Type().TestConformance(r.TypeConstraint())) != 0 {
-		// If the value doesn't conform to the type constraint then it's
+	if !typesCouldBeEqual(v.Type(), r.TypeConstraint()) {
+		// If the value could never conform to the type constraint, even
+		// once any dynamically-typed parts of it are decided, then it's
 		// definitely not in the range.
 		return False
 	}
